@@ -128,6 +128,9 @@ class SimRaw(io.RawIOBase):
             raise io.UnsupportedOperation("not writable")
         b = bytes(b)
         torn = self._w.sched("write", d.path, nbytes=len(b))
+        if torn is not None and torn < 0:
+            self._w.fs.write(d, b[:-torn - 1])
+            raise OSError(errno.ENOSPC, os.strerror(errno.ENOSPC))
         if torn is not None:
             self._w.fs.write(d, b[:torn])
             self._w.kill_current(f"write:{torn}/{len(b)}")
@@ -362,6 +365,9 @@ class SimFS:
 # ----------------------------------------------------------------------------
 class Proc:
     def __init__(self, pid, name, fn, die_at=None, torn_frac=0.0, torn_k=None):
+        self.enospc_at = None  # 1-based scheduling step (a write) that fails once with ENOSPC after a partial write
+        self.enospc_frac = 0.0
+        self.enospc_fired = False
         self.pid = pid
         self.name = name
         self.fn = fn
@@ -449,6 +455,14 @@ class World:
                 if k > 0:
                     return k  # caller writes k bytes, then calls kill_current
             self.kill_current(kind)
+        if kind == "write" and nbytes and p.enospc_at is not None and not p.enospc_fired and p.steps >= p.enospc_at:
+            # disk full, once: part of the data reaches the file, then the call fails (the space is there again
+            # for whatever the process does next)
+            p.enospc_fired = True
+            k = max(0, min(nbytes - 1, int(p.enospc_frac * nbytes)))
+            self.fault("enospc")
+            self.log.add(p.pid, "ENOSPC", f"{k}/{nbytes}")
+            return -(k + 1)  # negative: caller writes k bytes and raises OSError(ENOSPC)
         return None
 
     def _park(self, p):
@@ -951,6 +965,9 @@ def _p_os_write(fd, data):
         raise OSError(errno.EBADF, os.strerror(errno.EBADF))
     b = bytes(data)
     torn = w.sched("write", d.path, nbytes=len(b))
+    if torn is not None and torn < 0:
+        w.fs.write(d, b[:-torn - 1])
+        raise OSError(errno.ENOSPC, os.strerror(errno.ENOSPC))
     if torn is not None:
         w.fs.write(d, b[:torn])
         w.kill_current(f"write:{torn}/{len(b)}")
